@@ -205,6 +205,75 @@ def random_case(rnd, freqs=FREQS):
     return ds, r, freq + ':' + shape
 
 
+def extra_case(rnd):
+    """combinations the shape catalogue does not have, each with DTSTART a member of its own set: BYSETPOS below MONTHLY and with YEARLY,
+    BYYEARDAY / BYWEEKNO together with BYMONTH / BYMONTHDAY / BYDAY, mixed ordinal and plain BYDAY, BYMONTH / BYDAY under MINUTELY / SECONDLY,
+    sub-daily steps of more than a day"""
+    kind = rnd.choice(['wly_pos', 'dly_pos', 'hly_pos', 'yly_yd_mon', 'yly_yd_md', 'yly_wk_dow_mon', 'yly_wk_pos', 'yly_dow_pos', 'mly_md_pos', 'yly_md_dow',
+                       'yly_yd_dow', 'mly_ord_plain', 'Mly_mon', 'Sly_dow', 'big_inter', 'yly_mon_dow_pos'])
+    y = rnd.choice(year_types() + [1999, 2000, 2024, 2037])
+    m = rnd.randint(1, 12); d = rnd.randint(1, dim(y, m)); dd = D.date(y, m, d)
+    tod = (rnd.randint(0, 23), rnd.choice([0, 15, 30, 59]), rnd.choice([0, 30, 59]))
+    def rank(lst, x, neg): return (sorted(lst).index(x) + 1) if not neg else -(len(lst) - sorted(lst).index(x))
+    neg = rnd.random() < 0.4
+    if kind == 'wly_pos':
+        wd = dd.weekday() + 1; days = sorted(set(rnd.sample(range(1, 8), rnd.randint(2, 5))) | {wd})
+        r = blank('WEEKLY', rnd.choice([1, 1, 2, 3])); r['dow'] = [[0, w] for w in days]; r['pos'] = [rank(days, wd, neg)]; ds = (y, m, d)
+    elif kind == 'dly_pos':
+        hs = sorted(set(rnd.sample(range(24), rnd.randint(2, 4))) | {tod[0]})
+        r = blank('DAILY', rnd.choice([1, 1, 2])); r['H'] = hs; r['pos'] = [rank(hs, tod[0], neg)]; ds = (y, m, d) + tod
+    elif kind == 'hly_pos':
+        ms = sorted(set(rnd.sample(range(60), rnd.randint(2, 4))) | {tod[1]})
+        r = blank('HOURLY', rnd.choice([1, 1, 3])); r['M'] = ms; r['pos'] = [rank(ms, tod[1], neg)]; ds = (y, m, d) + tod
+    elif kind == 'yly_yd_mon':
+        r = blank('YEARLY', rnd.choice([1, 1, 2])); r['mon'] = sorted({m, rnd.randint(1, 12)}); r['yd'] = sorted({dd.timetuple().tm_yday, rnd.choice([1, 100, 200, 300])}); ds = (y, m, d)
+    elif kind == 'yly_yd_md':
+        r = blank('YEARLY', 1); r['md'] = sorted({d, rnd.choice([1, 15, 28])}); r['yd'] = sorted({dd.timetuple().tm_yday, rnd.choice([32, 100, 200])}); ds = (y, m, d)
+    elif kind == 'yly_wk_dow_mon':
+        iso = dd.isocalendar()
+        if iso[0] != y: return extra_case(rnd)
+        r = blank('YEARLY', 1); r['wk'] = [iso[1]]; r['dow'] = [[0, dd.weekday() + 1]]; r['mon'] = [m]; ds = (y, m, d)
+    elif kind == 'yly_wk_pos':
+        mon1 = D.date.fromisocalendar(y, 1, 1)                       # Monday of ISO week 1, may lie in the December before
+        r = blank('YEARLY', 1); r['wk'] = [1]; r['dow'] = [[0, 1], [0, 2], [0, 3]]; r['pos'] = [1]; ds = (mon1.year, mon1.month, mon1.day)
+    elif kind == 'yly_dow_pos':
+        last = D.date(y, 12, 31)
+        while last.weekday() > 4: last -= D.timedelta(1)
+        first = D.date(y, 1, 1)
+        while first.weekday() > 4: first += D.timedelta(1)
+        x = last if neg else first
+        r = blank('YEARLY', 1); r['dow'] = [[0, w] for w in range(1, 6)]; r['pos'] = [-1 if neg else 1]; ds = (x.year, x.month, x.day)
+    elif kind == 'yly_mon_dow_pos':
+        # the second / last working day of January and December
+        mm = rnd.choice([1, 12]); days = [D.date(y, mm, k) for k in range(1, 32) if D.date(y, mm, k).weekday() <= 4]
+        x = days[-1] if neg else days[1]
+        r = blank('YEARLY', 1); r['mon'] = [mm]; r['dow'] = [[0, w] for w in range(1, 6)]; r['pos'] = [-1 if neg else 2]; ds = (x.year, x.month, x.day)
+    elif kind == 'mly_md_pos':
+        r = blank('MONTHLY', rnd.choice([1, 1, 2])); r['md'] = [1, 15, -1]; r['pos'] = [2]; ds = (y, m, 15)
+    elif kind == 'yly_md_dow':
+        x = next(D.date(yy, mm, 13) for yy in range(y, y + 3) for mm in range(1, 13) if yy < 2099 and D.date(yy, mm, 13).weekday() == 4)
+        r = blank('YEARLY', 1); r['md'] = [13]; r['dow'] = [[0, 5]]; ds = (x.year, x.month, x.day)
+    elif kind == 'yly_yd_dow':
+        x = D.date(y, 1, 1) + D.timedelta(rnd.choice([0, 99, 199]))
+        r = blank('YEARLY', 1); r['yd'] = [1, 100, 200]; r['dow'] = [[0, x.weekday() + 1]]; ds = (x.year, x.month, x.day)
+    elif kind == 'mly_ord_plain':
+        x = next(D.date(y, m, k) for k in range(1, 8) if D.date(y, m, k).weekday() == 0)
+        r = blank('MONTHLY', 1); r['dow'] = [[1, 1], [0, 5]]; ds = (x.year, x.month, x.day)
+    elif kind == 'Mly_mon':
+        r = blank('MINUTELY', rnd.choice([1, 7, 20])); r['mon'] = sorted({m, (m + 1) % 12 + 1}); ds = (y, m, dim(y, m), 23, rnd.choice([50, 58]), 0)
+    elif kind == 'Sly_dow':
+        x = dd
+        while x.weekday() != 6: x += D.timedelta(1)
+        if x.year > 2098: return extra_case(rnd)
+        r = blank('SECONDLY', rnd.choice([1, 7, 30])); r['dow'] = [[0, 7], [0, 2]]; ds = (x.year, x.month, x.day, 23, 59, rnd.choice([50, 58]))
+    else:
+        fr, it = rnd.choice([('HOURLY', 1000), ('HOURLY', 25), ('MINUTELY', 100000), ('MINUTELY', 2000), ('SECONDLY', 86400), ('SECONDLY', 100000)])
+        r = blank(fr, it); ds = (y, m, d) + tod
+        if rnd.random() < 0.4: r['md'] = [d]
+    if rnd.random() < 0.5: r['count'] = rnd.choice([3, 10, 63, 64, 65, 130])
+    return ds, r, 'extra:' + kind
+
+
 def catalogue(rnd, tier):
     """(FREQ) x (BY shape) x INTERVAL x DTSTART phase x form, with COUNT / UNTIL variants (thorough: complete; quick: a seeded slice)"""
     out = []
